@@ -28,8 +28,28 @@ fn styled_doc(rng: &mut Rng) -> String {
     format!("<svg>{cfg}<rect wh=\"{} 8\" class=\"{pat} d-fill-red\" text=\"t\"/><rect xy=\"^|h 2\" wh=\"9 4\" class=\"{size} d-shadow\" text=\"u v\"/><line xy1=\"0 20\" xy2=\"20 20\" class=\"d-arrow d-dash\"/></svg>", 6 + rng.below(9))
 }
 
+/// documents whose output is large or holds one very long event: a single write of the serialiser may then be
+/// accepted only in part by a buffered or piped sink (stdout through its line buffer, a pipe that is full), which
+/// every front-end must handle alike
+fn bulk_doc(rng: &mut Rng) -> String {
+    let long = |rng: &mut Rng, unit: &str| -> String { unit.repeat((1100 + rng.below(9000)) / unit.len().max(1) + 1) };
+    match rng.below(5) {
+        // author style: a line break, then one long line without another
+        0 => format!("<svg><style>\n  .a {{ fill: red; }}\n{}</style><rect wh=\"4\" class=\"a\"/></svg>", long(rng, ".k{stroke:#123456;stroke-width:2}")),
+        // real SVG, a start tag over several lines ending in a long attribute value
+        1 => format!("<svg xmlns=\"http://www.w3.org/2000/svg\" xmlns:xlink=\"http://www.w3.org/1999/xlink\">\n<image\n   width=\"4\"\n   height=\"4\"\n   xlink:href=\"data:image/png;base64,{}\"/>\n<!-- c\n{} -->\n</svg>", long(rng, "iVBORw0KGgoAAAANSUhEUg"), long(rng, "comment text ")),
+        // multi-line text content and a long text attribute
+        2 => format!("<svg><rect wh=\"80 20\" text=\"{}\"/><text xy=\"0 30\">first\n{}</text><![CDATA[\n{}]]></svg>", long(rng, "word "), long(rng, "lorem ipsum "), long(rng, "cdata ")),
+        // many elements: an output well beyond the size of a pipe
+        3 => format!("<svg><loop count=\"{}\" loop-var=\"i\"><rect xy=\"{{{{$i * 3}}}} {{{{$i % 7}}}}\" wh=\"2\" class=\"d-fill-red\" text=\"$i\"/></loop></svg>", 600 + rng.below(380)),
+        // a long path and a long points list on one line after a line break inside the tag
+        _ => format!("<svg><path\n d=\"M0 0{}\"/><polyline\n points=\"{}\"/></svg>", long(rng, " l1 2 h3 v-1"), long(rng, "1,2 3,4 ")),
+    }
+}
+
 fn doc(rng: &mut Rng) -> String {
     if rng.chance(1, 4) { return styled_doc(rng); }
+    if rng.chance(1, 6) { return bulk_doc(rng); }
     match rng.below(8) {
         // failures that are only found while the output is being WRITTEN (a character XML cannot contain,
         // held raw in an attribute or in text) and failures found by the reader - every front-end, in every
